@@ -2,7 +2,7 @@ from .base import *
 
 ID = 'C17'
 THEOREMS = ['C17_truncate', 'C17_truncate_strict', 'C17_select_cone', 'C17_cone_excludes_zero', 'C17_scale_all',
-            'C17_rotate_all', 'C17_total', 'C17_dominant', 'C17_conversions', 'C17_total_value', 'C17_rsum_def']
+            'C17_rotate_all', 'C17_total', 'C17_dominant', 'C17_conversions', 'C17_total_value', 'C17_rsum_def', 'C17_cone_pred_unfold', 'C17_cone_signed_cos']
 OWNED = {'CNew', 'CDefault', 'CFrom', 'CFromIter', 'CLen', 'CIsEmpty', 'CIter', 'CIndex', 'CIntoIter', 'CIntoIterRef', 'CAsRefVec',
          'CAsRefSlice', 'CTruncate', 'CCone', 'CTotal', 'CDominant', 'CScaleAll', 'CRotateAll'}
 RULE = ('collections of 0..64 members from the C01 domain with duplicates, zero magnitudes, magnitude ties and whole-turn twins; thresholds equal to member magnitudes +-ulp (strictness hit exactly), '
@@ -120,5 +120,5 @@ def generate(rng, tier):
 LEVEL_TEXT = ('Kernel-checked theorems about the model (Vec as list): truncate IS the order-preserving filter "threshold < magnitude" (strict, stated over the reals for finite values); select_cone IS an order-preserving filter whose predicate '
               'rejects every zero-magnitude member and every zero axis (for every libm); scale_all / rotate_all ARE element-wise maps preserving length and position; total_magnitude is the left fold from -0.0 and (C17_total_value) the sum of the member magnitudes within sum*((1+2^-53)^n - 1) + n*2^-1075*(1+2^-53)^n for non-negative magnitudes; '
               'dominant is None exactly when empty and otherwise a member with no strictly larger fellow; conversions, iteration and indexing are the identity on contents. '
-              'The numeric reading of the cone predicate is decided against an mpmath reference (S3).')
-LEVEL_NOTE = ('Trusted: Coq kernel + vm_compute; 4 standard-library axioms; hand-written model validated bit-for-bit each run (including std iterator plumbing, which is modelled not verified); libm only as the parameter L.')
+              'C17_cone_signed_cos (S2, REAL pi): the signed cosine that select_cone feeds to acos is the cosine of the real direction difference between member and axis within 2.1u + 2.01e-10 (cos accurate to u); the final acos comparison is decided against an mpmath reference (S3).')
+LEVEL_NOTE = ('Trusted: Coq kernel + vm_compute; 4 standard-library axioms; plus the primitive-integer axioms (PrimInt63.*, Uint63.*_spec) of the Interval tactic for C17_cone_signed_cos; hand-written model validated bit-for-bit each run (including std iterator plumbing, which is modelled not verified); libm only as the parameter L.')
